@@ -14,7 +14,7 @@ def prior_index_for_seed(seed, prop):
     return tape.sub(seed, prop, "prior").randrange(len(PRIOR_PALETTE))
 
 
-def base_config(seed, prop, rnd, n_libs=1, n_data=1, lib_n=None, profile=None, allow_f4=True):
+def base_config(seed, prop, rnd, n_libs=1, n_data=1, lib_n=None, profile=None, allow_f4=True, tier="quick"):
     pidx = prior_index_for_seed(seed, prop)
     prior = dict(PRIOR_PALETTE[pidx])
     libs = [gen_library_spec(rnd, prior, n=lib_n, allow_f4=allow_f4) for _ in range(n_libs)]
@@ -32,6 +32,8 @@ def base_config(seed, prop, rnd, n_libs=1, n_data=1, lib_n=None, profile=None, a
         "datasets": datas,
         "pool": {"kind": "sim", "size": rnd.randint(1, 6)},
         "rng_seed": rnd.getrandbits(32),
+        # the thorough tier can afford more dill transports (each loads() re-evaluates pytensor graphs, ~0.8 s)
+        "sched_profile": {"p_dill": 0.06 if tier == "thorough" else 0.02},
     }
 
 
